@@ -18,6 +18,7 @@ ENGINES = {
     "C08": ("props.c08", "run"),
     "C13": ("props.c13", "run"),
     "C11": ("props.c11", "run"),
+    "C20": ("props.c20", "run"),
     "C14": ("props.exec_claims", "run"),
     "C15": ("props.exec_claims", "run"),
 }
